@@ -555,5 +555,7 @@ pub fn run(tier: Tier) -> i32 {
     rep.assumptions = vec![
         "non-true results of all()/of() and of(0) over missing operands are not fixed by the statement (set-valued expectation)".into(),
     ];
+    // or / not / of(.., 2) over 64..300 (and 2048, 55296) operands in identifier-list form, as loaded and optimised: the truth value is known by construction
+    rep.stats.merge(crate::wide::run(tier.thorough(), false));
     rep.finish()
 }
